@@ -189,6 +189,15 @@ def listSlice {α} (l : List α) (lo hi : Nat) : List α := (l.drop lo).take (hi
 /-- `v[i]` (Rust panics out of range; the model returns a default, and the properties never index out of range) -/
 def listGet {α} [Inhabited α] (l : List α) (i : Nat) : α := l[i]!
 
+/-- `Vec::dedup_by(|a, b| same a b)`: an element is dropped when `same` holds of it (first argument) and the last element kept (second) -/
+def listDedupByGo {α} (same : α → α → Bool) : α → List α → List α
+  | last, [] => [last]
+  | last, x :: xs => if same x last then listDedupByGo same last xs else last :: listDedupByGo same x xs
+def listDedupBy {α} (l : List α) (same : α → α → Bool) : List α :=
+  match l with
+  | [] => []
+  | x :: xs => listDedupByGo same x xs
+
 /-- `itertools::tuple_windows` for pairs: consecutive overlapping pairs -/
 def windows2 {α} : List α → List (T2 α α)
   | a :: b :: rest => T2.mk a b :: windows2 (b :: rest)
